@@ -1137,13 +1137,21 @@ fn slow_link_mutual_dial(run: &mut Run, case: u64) -> anyhow::Result<()> {
             tokio::time::sleep(skew).await;
             nb.connect(aa).await
         });
-        tokio::time::sleep(Duration::from_millis(2_500)).await;
-        la.pump();
-        lb.pump();
+        // wait for quiet (no event on either side for 1.5 s; the machine may be loaded), at most 25 s
+        let mut quiet = 0;
+        let mut waited = 0;
+        while quiet < 3 && waited < 50 {
+            tokio::time::sleep(Duration::from_millis(500)).await;
+            let before = la.events.len() + lb.events.len();
+            la.pump();
+            lb.pump();
+            quiet = if la.events.len() + lb.events.len() == before { quiet + 1 } else { 0 };
+            waited += 1;
+        }
         let (ea, eb) = (la.events.len(), lb.events.len());
         let mk = |id: &str| Request::new(Bytes::from_static(b"x")).with_header("x-id", id);
-        let rab = tokio::time::timeout(Duration::from_secs(8), a.net.rpc(b.id, mk("ab"))).await.map(|r| r.is_ok()).unwrap_or(false);
-        let rba = tokio::time::timeout(Duration::from_secs(8), b.net.rpc(a.id, mk("ba"))).await.map(|r| r.is_ok()).unwrap_or(false);
+        let rab = tokio::time::timeout(Duration::from_secs(15), a.net.rpc(b.id, mk("ab"))).await.map(|r| r.is_ok()).unwrap_or(false);
+        let rba = tokio::time::timeout(Duration::from_secs(15), b.net.rpc(a.id, mk("ba"))).await.map(|r| r.is_ok()).unwrap_or(false);
         tokio::time::sleep(Duration::from_millis(1_000)).await;
         la.pump();
         lb.pump();
